@@ -41,6 +41,8 @@ class RefTerm:
         self.scrolls_alt = 0
         self.replies = []  # DSR replies waiting to be read by the scripted in_stream
         self.dsr_count = 0
+        self.last_report_row = None
+        self.report_log = []
         self.title_stack = 0
         self._buf = ""
         self.log = []
@@ -238,6 +240,8 @@ class RefTerm:
         elif final == "n":
             if nums == [6]:
                 self.dsr_count += 1
+                self.last_report_row = self.r
+                self.report_log.append(self.r)
                 self.replies.append("\x1b[%d;%dR" % (self.r + 1, self.c + 1))
             else:
                 raise Unsupported(f"DSR {nums}")
